@@ -61,8 +61,25 @@ def analyze(
     if not nodes:
         return Decision("ask", "empty command")
 
-    decisions = [_analyze_node(node, config, cwd, remote=remote) for node in nodes]
-    return _combine(decisions)
+    return _combine(_analyze_sequence(nodes, config, cwd, remote=remote))
+
+
+def _analyze_sequence(
+    nodes: list, config: Config, cwd: Path, *, remote: bool = False
+) -> list[Decision]:
+    """Analyze commands that run one after another, tracking `cd <literal>`.
+
+    Each `cd <literal>` changes the directory used for the commands after it.
+    """
+    decisions = []
+    effective_cwd = cwd
+    for node in nodes:
+        decisions.append(_analyze_node(node, config, effective_cwd, remote=remote))
+        if not remote:
+            cd_target = _extract_cd_target(node)
+            if cd_target:
+                effective_cwd = _resolve_cd_target(cd_target, effective_cwd)
+    return decisions
 
 
 def _analyze_node(node, config: Config, cwd: Path, *, remote: bool = False) -> Decision:
@@ -86,15 +103,8 @@ def _analyze_node(node, config: Config, cwd: Path, *, remote: bool = False) -> D
     elif kind == "list":
         # All parts must be safe (skip operators like && ||)
         parts = [p for p in node.parts if getattr(p, "kind", None) != "operator"]
-        # Check if first part is `cd <literal>` - use that path for subsequent parts
-        effective_cwd = cwd
-        if parts and not remote:
-            cd_target = _extract_cd_target(parts[0])
-            if cd_target:
-                effective_cwd = _resolve_cd_target(cd_target, cwd)
-        decisions = [
-            _analyze_node(p, config, effective_cwd, remote=remote) for p in parts
-        ]
+        # `cd <literal>` parts change the path used for the parts after them
+        decisions = _analyze_sequence(parts, config, cwd, remote=remote)
         result = _combine(decisions)
         if result.action == "allow":
             reasons = [d.reason for d in decisions]
